@@ -17,10 +17,10 @@ func init() {
 // ---------------------------------------------------------------------------
 
 type rElem struct {
-	edge             bool
-	id, label        string
-	from, to         string
-	data             map[string]interface{}
+	edge      bool
+	id, label string
+	from, to  string
+	data      map[string]interface{}
 }
 
 type rRow struct {
@@ -81,15 +81,15 @@ const (
 
 // rStep is the reference's view of a statement.
 type rStep struct {
-	kind   string
-	ids    []string // V/E ids, hasId, labels of moves / hasLabel
-	key    string
-	num    float64
-	str    string
-	mark   string
-	marks  []string
-	n      uint32
-	a, b   int32
+	kind  string
+	ids   []string // V/E ids, hasId, labels of moves / hasLabel
+	key   string
+	num   float64
+	str   string
+	mark  string
+	marks []string
+	n     uint32
+	a, b  int32
 }
 
 func rWith(r rRow, e *rElem) rRow {
